@@ -218,13 +218,14 @@ class VG(object):
             data = bytearray(self.d(st.binary(min_size=1, max_size=1)) * nbytes)
         else:
             data = bytearray(self.d(st.binary(min_size=nbytes, max_size=nbytes)))
-        if n % 8 and not (self.cfg.dirty_bits and self.chance(30)):
+        dirty = self.cfg.dirty_bits is True or (self.cfg.dirty_bits == 'unnamed' and not base.named_bits)
+        if n % 8 and not (dirty and self.chance(30)):
             data[-1] &= (0xff << (8 - n % 8)) & 0xff
         if base.named_bits and self.chance(40):
             # trailing zero bits
             for i in range(max(0, n - self.pick([1, 3, 9])), n):
                 data[i // 8] &= ~(0x80 >> (i % 8)) & 0xff
-        if self.chance(5) and self.cfg.dirty_bits:
+        if self.chance(5) and dirty:
             data += b'\xff'     # more bytes than needed is accepted by the type checker
         return (bytes(data), n)
 
